@@ -87,10 +87,11 @@ type RecFacts struct {
 }
 
 type GenAnalysis struct {
-	P     *load.Prog
-	G     *genfacts.Gen
-	Files []*genfacts.GenFile
-	Recs  []*RecFacts
+	P       *load.Prog
+	G       *genfacts.Gen
+	Files   []*genfacts.GenFile
+	Recs    []*RecFacts
+	Imports []*genfacts.ImportResult
 	// counts
 	NShapes, NRecords, NMethods, NOptionSets int
 }
@@ -223,6 +224,36 @@ func runGen(c *core.Ctx, p *load.Prog, cfg genConfig) *GenAnalysis {
 		}
 		ga.Recs = append(ga.Recs, res.recs...)
 	}
+	// the import scenario (namespaced and inlined imported types)
+	g.U.AddImportTypes()
+	all := geneval.AllOptions()
+	for _, combined := range []bool{false, true} {
+		for _, o := range []geneval.Options{all[0], all[31], all[8], all[1]} {
+			ir := g.GenerateImports(o, combined)
+			ga.Imports = append(ga.Imports, ir)
+			if ir.Root.EvalErr != nil {
+				if !evalErrs[ir.Root.EvalErr.Error()] {
+					evalErrs[ir.Root.EvalErr.Error()] = true
+					c.Undecide("the generator leaves the evaluator's subset in the import scenario (combined=%v, options %s): %v", combined, o, ir.Root.EvalErr)
+				}
+				continue
+			}
+			ga.Files = append(ga.Files, ir.Root)
+			for _, d := range ir.Deps {
+				if d.EvalErr != nil {
+					c.Undecide("import scenario dependency: %v", d.EvalErr)
+					continue
+				}
+				ga.Files = append(ga.Files, d)
+			}
+			if ir.Root.GenErr == "" && ir.Root.ParseErr == nil && ir.Root.AST != nil {
+				for _, r := range ir.Recs {
+					ga.Recs = append(ga.Recs, ga.readRecord(ir.Root, r))
+				}
+			}
+		}
+	}
+	c.Count("import_scenarios", len(ga.Imports))
 	ga.NRecords = len(ga.Recs)
 	for _, r := range ga.Recs {
 		for _, m := range r.M {
